@@ -291,7 +291,11 @@ def run(R):
         # replace planner: literal and regex
         lit = gen.render(a, "Snake")
         for is_regex, pat, rep in ((False, lit, "Z" + replace), (True, lit[:-1] + "[a-z]", "<$0>" if False else "R"), (True, "(" + a[0] + ")_(" + a[1] + ")", "$2_$1")):
-            pr = H.ask({"op": "simple_plan_tree", "tree": tj, "pattern": core.hx(pat), "replacement": core.hx(rep), "regex": is_regex})
+            sreq = {"op": "simple_plan_tree", "tree": tj, "pattern": core.hx(pat), "replacement": core.hx(rep), "regex": is_regex}
+            if i % 2:
+                # lines dropped by the filter still count as lines of the file
+                sreq["exclude_matching_lines"] = r.choice(["^x", "^last", "é", "^$", "[0-9]"])
+            pr = H.ask(sreq)
             if pr.get("ok"):
                 out["plans"] += 1
                 k = "replace_regex" if is_regex else "replace_literal"
@@ -311,7 +315,9 @@ def run(R):
                                     ("cli rename --dry-run filtered", ["rename", search, replace, "--dry-run", "--output", "json", "--quiet"] + filt, True),
                                     ("cli search", ["search", search, "--output", "json", "--quiet"], True),
                                     ("cli rename --dry-run", ["rename", search, replace, "--dry-run", "--output", "json", "--quiet"], True),
-                                    ("cli replace --dry-run", ["replace", "--no-regex", search, replace, "--dry-run", "--output", "json"], False)):
+                                    ("cli replace --dry-run", ["replace", "--no-regex", search, replace, "--dry-run", "--output", "json"], False),
+                                    ("cli replace --dry-run filtered", ["replace", "--no-regex", search, replace, "--dry-run", "--output", "json",
+                                                                        "--exclude-matching-lines", "^x|^last|é"], False)):
                 rc, o, e = sb.run(["--no-auto-init", "-y"] + args)
                 if rc != 0 or not o.strip():
                     continue
